@@ -121,6 +121,13 @@ func genInst(rng *rand.Rand, i int, o genOpt) aLine {
 		if rng.Intn(6) == 0 {
 			addr = uint64(rng.Int63n(1 << 16))
 		}
+		// the tracer writes unsigned 64-bit hex: upper half of the range and its boundaries
+		switch rng.Intn(8) {
+		case 0:
+			addr = 1<<63 | uint64(rng.Int63())
+		case 1:
+			addr = []uint64{1 << 63, 1<<63 - 1, ^uint64(0), 0xffff800000000000, 1 << 32, 1<<32 - 1}[rng.Intn(6)]
+		}
 		hex := func(a uint64) {
 			if o.pfx {
 				add(hexTok(a, true), fmt.Sprintf("0x%x", a))
